@@ -379,7 +379,7 @@ REFUSALS = [
     (None, "_is_format_request", "guard-raise:ast.Call", "query does not start with a call"),
     (None, "getAttribute", "first-raise", "templated getAttribute"),
     (None, "process_metadata", "loop-else-raise", "unknown metadata type"),
-    (None, "build_CPPCodeValue", "guard-raise:spec.method_object is None", "function invoked like a method"),
+    (None, "build_CPPCodeValue", "guard-atom:spec.method_object is None", "function invoked like a method"),
     ("query_ast_visitor", "visit_Call", "guard-nonempty:call_node.keywords", "keyword arguments (they would be dropped)"),
     ("cpp_sequence", "as_cpp", "first-raise", "a sequence used where a C++ value is needed (arithmetic, comparison, argument)"),
 ]
@@ -432,6 +432,11 @@ def check_refusals(col, repo: Repo, m):
                 if isinstance(r, ast.Raise):
                     if any(needle in src(t) for t, _ in guards(f.node, r, pm)):
                         ok = True
+        elif how.startswith("guard-atom:"):
+            # the named test itself (an atom of the closed guard set) holds where the raise stands
+            needle = how.split(":", 1)[1]
+            pm = parent_map(f.node)
+            ok = any(isinstance(r, ast.Raise) and (needle, True) in {(src(t), tr_) for t, tr_ in guards(f.node, r, pm)} for r in walk_no_nested(f.node))
         elif how.startswith("guard-nonempty:"):
             what_ = how.split(":", 1)[1].replace(" ", "")
             forms = {f"len({what_})>0", f"len({what_})!=0", f"len({what_})>=1", what_, f"0<len({what_})", f"bool({what_})", f"{what_}!=[]"}
